@@ -129,7 +129,7 @@ const foldChunk = 150
 // input and output are evaluated by V8; JsFold's exact value is the third witness.
 func foldBinding(r *core.Run) {
 	var cases []foldCase
-	res := tlcrun.MustHold(r, tlcrun.Options{Module: "JsFoldMC", Config: "JsFoldMC.grid.cfg", Workers: 3, TimeoutSec: 600, XssMB: 256,
+	res := tlcrun.MustHold(r, tlcrun.Options{Module: "JsFoldMC", Config: "JsFoldMC.grid.cfg", Workers: 3, TimeoutSec: 600, XssMB: 256, HeapGB: 2,
 		OnCase: func(raw []byte) {
 			var c foldCase
 			if err := json.Unmarshal(raw, &c); err != nil {
